@@ -616,6 +616,13 @@ func genForge(r *rand.Rand, id string, size int, total int) []string {
 			if p != q {
 				g.add("sync %d %d", p, q)
 			}
+		case c < 59 && colluder >= 0:
+			// a colluding writer's honest entry whose parent is an entry-shaped block WITHOUT a clock: the
+			// entry is valid and must arrive, the block must be a failed fetch, not a dead process
+			q := members[g.pick(len(members))]
+			route := []string{"sync", "pub", "dc"}[g.pick(3)]
+			g.add("forge %d recipe=honest base=%d badparent=noclock k=%s v=%s", colluder, colluder, hx(keys[0]), hx(g.value()))
+			g.add("inject %d heads=@last route=%s from=%d", q, route, colluder)
 		default:
 			rec := forgeRecipes[g.pick(len(forgeRecipes))]
 			as := members[g.pick(len(members))]
@@ -1145,12 +1152,14 @@ func genLimit(r *rand.Rand, id string, size int, total int) []string {
 			limitWrite(g, kind, p)
 			g.add("obs %d", p)
 		} else if g.pick(5) == 0 {
-			// "load more" on the store as it is: everything, beyond the log length, or (event logs only: the
-			// key-value and document views are never reset, and a load that trims a LIVE log is outside
-			// what the properties say about views) anything above the limit it was opened with
+			// "load more" on the store as it is: everything, beyond the log length, anything above the limit
+			// it was opened with — or below it: the load then TRIMS the live log, and the key-value and
+			// document views must lose the keys of the trimmed entries (F45)
 			m := -1
 			switch {
-			case kind == "log" && a-2 > 0 && g.pick(2) == 0:
+			case a-2 > 1 && g.pick(4) == 0:
+				m = 1 + g.pick(a-3)
+			case a-2 > 0 && g.pick(2) == 0:
 				m = a - 2 + 1 + g.pick(6)
 			case g.pick(2) == 0:
 				m = 1000 + g.pick(3) // beyond any log length
